@@ -231,6 +231,16 @@ def one_history(ctx, gen, hno):
                 other.add_child(c)
                 other.remove_child(c)
                 mon.check(op, before, [], [], wit)
+                # ... and half of the time an ancestor of the borrowed node is replaced (with deletion) right afterwards
+                up = lister_of(c, held[a])
+                top = lister_of(up, held[a]) if up is not None else None
+                if up is not None and top is not None and rng.random() < 0.6:
+                    new = Node(up.name, content="replacement")
+                    before = dict(Node.store)
+                    gone = snapshot.walk(up)
+                    history.append(["replace_delete", up.name, len(gone)])
+                    top.replace_child(up, new)
+                    mon.check("replace_delete", before, [], gone, wit)
             elif op == "close_and_reopen" and held:
                 # a document is saved, closed (deleted by its root id) and opened again from the saved text: the ids are the same as
                 # before, no two live nodes ever share one; closing it a second time removes every node again
